@@ -26,9 +26,14 @@ MASK = re.compile(rb"(\d{2}/\d{2}/\d{4}|\d{2}\.\d{2}\b)")
 
 def make(desc):
     kw = {}
+    lists = {}
     if desc.get("elements") or desc.get("pseudo"):
         kw["elements"] = list(desc.get("elements", []))
         kw["pseudo_elements"] = list(desc.get("pseudo", []))
+        lists = dict(kw)
+    for key in ("cooling", "heating", "shielding"):
+        if desc.get(key):
+            kw[key] = dict(desc[key]) if key == "shielding" else list(desc[key])
     if desc.get("binding"):
         chemistrydata.update_binding_energy(dict(desc["binding"]))
     if desc.get("file"):
@@ -36,9 +41,9 @@ def make(desc):
                       required_species=list(desc.get("required", [])), **kw)
     else:
         # as the render command does: the description's own lists are installed before any species is parsed
-        if kw:
-            Species.set_known_elements(list(kw["elements"]))
-            Species.set_known_pseudoelements(list(kw["pseudo_elements"]))
+        if lists:
+            Species.set_known_elements(list(lists["elements"]))
+            Species.set_known_pseudoelements(list(lists["pseudo_elements"]))
         rl = [Reaction(list(r), list(p), -1.0, -1.0, 1e-10, 0.5, 10.0, ReactionType.GAS_TWOBODY, idxfromfile=i) for i, (r, p) in enumerate(desc["reactions"])]
         net = Network(reactions=rl, required_species=list(desc.get("required", [])), **kw)
     if desc.get("edit"):
